@@ -281,6 +281,16 @@ for cat in simple:
         m = re.search(r'OpenSSH (\d[\d.]*)', line[0]) if line else None
         if not m or m.group(1) != want:
             fail({'category': cat, 'algorithms': [a, b], 'first appeared': [va, vb]}, line[:1], 'compatibility from OpenSSH %%s (the numerically latest first-appeared version)' %% want, 'compat-from')
+        elif cases %% 4 == 0:
+            # names the database does not know say nothing about versions: wherever they stand in the list, the range is the same
+            for pos in (0, 1, 2):
+                cases += 1
+                l2 = [a, b]; l2.insert(pos, 'unknown-alg@example.com')
+                p2 = dict(base); p2[cat] = l2
+                st2, text2 = H.run_output(kex=H.make_kex(p2['kex'], p2['key'], p2['enc'], p2['mac']), banner='SSH-2.0-OpenSSH_9.9')
+                line2 = [l for l in text2.split('\n') if l.startswith('(gen) compatibility:')]
+                if line2 != line:
+                    fail({'category': cat, 'algorithms': l2}, line2[:1], line[0], 'compat-unknown-name')
 # (c) ... and ends at the numerically earliest removal version among the advertised algorithms that were removed from the server
 removed = {}
 for cat in ('kex', 'enc', 'mac'):
